@@ -322,7 +322,7 @@ func (s *session) SetID(newID string) {
 	s.socket.SetID(newID)
 	hub := s.peer.sessHub
 	hub.set(s)
-	hub.delete(oldID)
+	hub.deleteOwned(oldID, s)
 	Tracef("session changes id: %s -> %s", oldID, newID)
 }
 
@@ -1027,6 +1027,17 @@ func (sh *SessionHub) len() int {
 
 // delete deletes the *session for a id.
 func (sh *SessionHub) delete(id string) {
+	sh.sessions.Delete(id)
+}
+
+// deleteOwned deletes the id from the hub,
+// unless another session has already taken it over.
+func (sh *SessionHub) deleteOwned(id string, sess *session) {
+	sh.mu.Lock()
+	defer sh.mu.Unlock()
+	if _sess, ok := sh.sessions.Load(id); ok && _sess.(*session) != sess {
+		return
+	}
 	sh.sessions.Delete(id)
 }
 
